@@ -12,6 +12,7 @@
   of a `Manager` share no state, so an interleaving across them is a history of each.
 -/
 import MM.Lemmas.C10
+import MM.Props.C08
 import MM.Model.C10
 
 namespace MM.C08
@@ -279,6 +280,143 @@ private theorem C10_for_any {K P : Type} [DecidableEq K] (c : Cfg K P) : C10_for
 theorem C10_holds : C10_statement :=
   ⟨C10_for_any cidrCfg, fun S => C10_for_any (MM.C09.domCfg S), C10_for_any MM.C09.fwdCfg, C10_for_any MM.C09.agCfg⟩
 
+/-! ### refinement: the tables are total maps `key → metric-sorted slice`
+
+  `view t k` is the slice stored under `k` (empty when absent); the first element of `view t k`
+  is the "best route" of the key.  Every table operation acts on the view as the corresponding
+  operation on functions (`aAdd`, `aRemove`, `aFilter`), and every lookup is a function of the view:
+  `best`, `domLookup`, `fwdLookup`, `agLookup` are defined through `get`, and the CIDR lookup is
+  characterised on the view by `C08_lookup_on_view`.  C08–C10 are statements about this map. -/
+
+section refinement
+variable {K P : Type} [DecidableEq K]
+
+/-- the table as a total function -/
+def view (t : KTable K P) : K → Group P := get t
+
+/-- point update of a function -/
+def upd (F : K → Group P) (k : K) (g : Group P) : K → Group P := fun k2 => if k2 = k then g else F k2
+
+/-- `AddRoute` on the abstract map -/
+def aAdd (c : Cfg K P) (self : Nat) (F : K → Group P) (e : Entry P) : K → Group P :=
+  if !c.valid e.pay then F
+  else if e.path.contains self then F
+  else
+    let k := c.keyOf (stored c e).pay
+    match replG c.byHop (stored c e) (F k) with
+    | some none => F
+    | some (some g') => upd F k (sortG g')
+    | none => upd F k (sortG (F k ++ [stored c e]))
+
+/-- `RemoveRoute` on the abstract map -/
+def aRemove (F : K → Group P) (k : K) (o : Nat) : K → Group P :=
+  match removeG o (F k) with
+  | none => F
+  | some g' => upd F k g'
+
+/-- `RemoveRoutesFromPeer` / `CleanupStaleRoutes` on the abstract map -/
+def aFilter (keep : Entry P → Bool) (F : K → Group P) : K → Group P := fun k => (F k).filter keep
+
+theorem view_addRoute (c : Cfg K P) (self : Nat) (t : KTable K P) (e : Entry P) :
+    view (addRoute c self t e).1 = aAdd c self (view t) e := by
+  unfold addRoute aAdd view
+  by_cases hv : (!c.valid e.pay) = true
+  · rw [if_pos hv, if_pos hv]
+  rw [if_neg hv, if_neg hv]
+  by_cases hp : e.path.contains self = true
+  · rw [if_pos hp, if_pos hp]
+  rw [if_neg hp, if_neg hp]
+  dsimp only
+  cases replG c.byHop (stored c e) (get t (c.keyOf (stored c e).pay)) with
+  | none => funext k2; simp only [get_set, upd]
+  | some o =>
+    cases o with
+    | none => rfl
+    | some g' => funext k2; simp only [get_set, upd]
+
+theorem view_removeRoute (t : KTable K P) (k : K) (o : Nat) :
+    view (removeRoute t k o).1 = aRemove (view t) k o := by
+  unfold removeRoute aRemove view
+  cases removeG o (get t k) with
+  | none => rfl
+  | some g' =>
+    cases g' with
+    | nil => funext k2; simp only [get_del, upd]
+    | cons x xs => funext k2; simp only [get_set, upd]
+
+theorem view_filterT {t : KTable K P} (hn : (keys t).Nodup) (keep : Entry P → Bool) :
+    view (filterT keep t) = aFilter keep (view t) := by
+  funext k; exact get_filterT hn k
+
+/-- abstract state: clock and map -/
+structure AState (K P : Type) where
+  now : Nat
+  map : K → Group P
+
+/-- one operation on the abstract map -/
+def astep (c : Cfg K P) (self : Nat) (s : AState K P) : Op K P → AState K P
+  | .add e => { s with map := aAdd c self s.map { e with born := s.now } }
+  | .remove k o => { s with map := aRemove s.map k o }
+  | .disconnect p => { s with map := aFilter (fun r => !(r.nextHop == p)) s.map }
+  | .tick n => { s with now := s.now + n }
+  | .cleanup a => { s with map := aFilter (fresh self s.now a) s.map }
+
+def arun (c : Cfg K P) (self : Nat) (ops : List (Op K P)) : AState K P :=
+  ops.foldl (astep c self) ⟨0, fun _ => []⟩
+
+/-- **Refinement**: after any history the association-list table of the model (= the Go map) *is*
+    the abstract map the same history produces, and the clocks agree. -/
+theorem C10_refinement (c : Cfg K P) (self : Nat) (ops : List (Op K P)) :
+    view (run c self ops).tab = (arun c self ops).map ∧ (run c self ops).now = (arun c self ops).now := by
+  unfold run arun
+  suffices h : ∀ (s : State K P) (a : AState K P), WF c self s.tab → view s.tab = a.map → s.now = a.now →
+      view (ops.foldl (step c self) s).tab = (ops.foldl (astep c self) a).map ∧
+      (ops.foldl (step c self) s).now = (ops.foldl (astep c self) a).now by
+    exact h State.init ⟨0, fun _ => []⟩ (WF_nil c self) rfl rfl
+  induction ops with
+  | nil => intro s a _ hv hn; exact ⟨hv, hn⟩
+  | cons op rest ih =>
+    intro s a hwf hv hn
+    simp only [List.foldl_cons]
+    refine ih _ _ (WF_step hwf op) ?_ ?_
+    · cases op with
+      | add e => simp only [step, astep]; rw [view_addRoute, hv, hn]
+      | remove k o => simp only [step, astep]; rw [view_removeRoute, hv]
+      | disconnect p => simp only [step, astep, removeFromPeer]; rw [view_filterT hwf.1, hv]
+      | tick n => simpa [step, astep] using hv
+      | cleanup m => simp only [step, astep, cleanupStale]; rw [view_filterT hwf.1, hv, hn]
+    · cases op <;> simp [step, astep, hn]
+
+/-- every slice of the view is what `WF` says: metric-sorted, one entry per slot, of that key -/
+theorem view_wf {c : Cfg K P} {self : Nat} {t : KTable K P} (h : WF c self t) (k : K)
+    (hne : view t k ≠ []) : GroupOK c self k (view t k) := h.get_ok hne
+
+/-- the "best route" of a key is the first entry of its slice -/
+theorem best_eq_view (t : KTable K P) (k : K) : best t k = (view t k).head? := rfl
+
+end refinement
+
+/-- The CIDR lookup read on the abstract map: the answer sits in the slice of its own key, contains
+    the address, and no slice holds a containing route with a longer prefix, or with the same prefix
+    and a lower metric; nothing is answered iff no slice holds a containing route. -/
+theorem C08_lookup_on_view {self : Nat} {t : CTable} (hwf : WF cidrCfg self t) (ip : IPAddr) :
+    match lookup t ip with
+    | some r => r ∈ view t (eff r.pay) ∧ contains r.pay ip = true ∧
+        ∀ k, ∀ r' ∈ view t k, contains r'.pay ip = true →
+          plen r'.pay ≤ plen r.pay ∧ (plen r'.pay = plen r.pay → r.metric ≤ r'.metric)
+    | none => ∀ k, ∀ r' ∈ view t k, contains r'.pay ip = false := by
+  have h := C08_lookup_correct hwf ip
+  cases hl : lookup t ip with
+  | none =>
+    rw [hl] at h
+    intro k r' hr'
+    exact h r' ((mem_routes_get hwf.1).mpr ⟨k, hr'⟩)
+  | some r =>
+    rw [hl] at h
+    refine ⟨hwf.mem_get h.1, h.2.1, ?_⟩
+    intro k r' hr'
+    exact h.2.2 r' ((mem_routes_get hwf.1).mpr ⟨k, hr'⟩)
+
 /-! ### the Manager wrappers (CIDR part) -/
 
 open MM.C10 in
@@ -322,5 +460,33 @@ example :
     routes (removeFromPeer t0 2) = [] ∧
     routes (cleanupStale 1 10 2 (run MM.C09.agCfg 1 [.add (e1 2 5 3 [2]), .add (e1 1 5 3 [])]).tab)
       = [e1 1 5 3 []] := by decide
+
+/-- hypotheses of `C10_add_outcome` / `C10_remove_outcome` (`WF`) and of `C10_replace_rule` (a valid
+    argument without the local agent in its path, and a stored route in its slot) are met by a
+    concrete table: agent 7 reached through next hops 2 and 3, an update arriving through 2. -/
+example :
+    let t := (run MM.C09.agCfg 1 [.add ⟨7, 2, 7, 3, 1, [2, 7], 0⟩, .add ⟨7, 3, 7, 2, 1, [3, 7], 0⟩]).tab
+    let e : Entry Nat := ⟨7, 2, 7, 1, 1, [2, 7], 0⟩
+    let old : Entry Nat := ⟨7, 2, 7, 3, 1, [2, 7], 0⟩
+    WF MM.C09.agCfg 1 t ∧ MM.C09.agCfg.valid e.pay = true ∧ 1 ∉ e.path ∧ old ∈ routes t ∧
+    MM.C09.agCfg.keyOf old.pay = MM.C09.agCfg.keyOf (stored MM.C09.agCfg e).pay ∧
+    sameSlot MM.C09.agCfg.byHop old (stored MM.C09.agCfg e) = true ∧
+    (addRoute MM.C09.agCfg 1 t e).2 = true ∧ (routes t).length = 2 :=
+  ⟨WF_run _ _ _, by decide, by decide, by decide, by decide, by decide, by decide, by decide⟩
+
+/-- hypothesis of `C10_manager_inv`: a manager whose table is not empty -/
+example :
+    let m := ((({} : MM.C10.Mgr).addLocal 1 ⟨4, 0x0a010203, 8, 32⟩ 5).1.advertise 1 2 3 1 [2, 3] ⟨4, 0x0a000000, 8, 32⟩ 65535).1
+    WF cidrCfg 1 m.st.tab ∧ (routes m.st.tab).map (·.metric) = [0, 5] := by
+  refine ⟨?_, by decide⟩
+  have h1 := (C10_manager_inv (self := 1) (m := {}) (WF_nil _ _)).1 ⟨4, 0x0a010203, 8, 32⟩ 5
+  exact (C10_manager_inv h1).2.2.1 2 3 1 [2, 3] ⟨4, 0x0a000000, 8, 32⟩ 65535
+
+/-- the refinement on a concrete history: same map, pointwise -/
+example :
+    let ops : List (Op Nat Nat) := [.add ⟨7, 2, 7, 3, 1, [2, 7], 0⟩, .tick 3, .add ⟨7, 3, 7, 2, 1, [3, 7], 0⟩,
+      .cleanup 2, .remove 7 7]
+    (arun MM.C09.agCfg 1 ops).map 7 = [] ∧ view (run MM.C09.agCfg 1 ops).tab 7 = [] ∧
+    (arun MM.C09.agCfg 1 (ops.take 3)).map 7 = view (run MM.C09.agCfg 1 (ops.take 3)).tab 7 := by decide
 
 end MM.C08
